@@ -808,7 +808,7 @@ impl Check for C02 {
     }
     fn n_cases(&self, tier: Tier) -> u64 {
         match tier {
-            Tier::Quick => 40_000,
+            Tier::Quick => 100_000,
             Tier::Thorough => 3_000_000,
         }
     }
